@@ -41,7 +41,8 @@ CONSTANTS QLow,        \* QLow[l+1]  : integer b with 2^b <= Q_l        (l = 0..
           Steps,       \* rotation steps explored
           Elts,        \* Galois elements explored
           HasKeyFor(_),  \* which Galois elements have a key in the instance's key set
-          SeedWords    \* number of u64 words needed to store flag+seed (9)
+          SeedWords,   \* number of u64 words needed to store flag+seed (9)
+          TagMsgs      \* TRUE: handles remember which message they were encoded from (finer typestate classes)
 
 VARIABLES pool,     \* [CtSlots \cup PtSlots -> Handle]
           nsteps    \* number of actions taken
@@ -73,7 +74,7 @@ NfD(a, l) == [a EXCEPT ![l+2] = a[l+2] + 1]
 
 Empty == [kind |-> "none", size |-> 0, lvl |-> 0, ntt |-> FALSE, cf |-> 1, seeded |-> FALSE,
           valid |-> TRUE, sc |-> "1", sce |-> 0, scl |-> 0, scn |-> NfOne, pt |-> <<>>, nb |-> 0, mb |-> 0, exact |-> TRUE,
-          cfany |-> FALSE, why |-> ""]
+          cfany |-> FALSE, why |-> "", tag |-> 0]
 
 (***************************************************************************)
 (* Noise accounting (DESIGN Appendix B), in bits, deliberately loose.      *)
@@ -155,7 +156,7 @@ EncodeRes(m, l, e) ==
             !.sc = IF IsCkks THEN ScP(e) ELSE "1", !.sce = IF IsCkks THEN e ELSE 0,
             !.scl = IF IsCkks THEN e ELSE 0,
             !.scn = IF IsCkks THEN NfP(e) ELSE NfOne,
-            !.pt = VOfMsg(m), !.mb = VMag(VOfMsg(m)),
+            !.pt = VOfMsg(m), !.mb = VMag(VOfMsg(m)), !.tag = IF TagMsgs THEN m ELSE 0,
             !.nb = IF IsCkks THEN LogN + 1 - e ELSE 0])
 
 EncryptRes(p, mode) ==
@@ -164,7 +165,7 @@ EncryptRes(p, mode) ==
   ELSE IF (~IsCkks) /\ p.ntt THEN RAny("NTT-form plaintext given to BFV/BGV encryption")
   ELSE LET l == IF IsCkks THEN p.lvl ELSE First
        IN ROk([Empty EXCEPT !.kind = "ct", !.size = 2, !.lvl = l, !.ntt = DefaultNtt,
-                    !.seeded = (mode = "skseed" /\ SeedFits(l)),
+                    !.seeded = (mode = "skseed" /\ SeedFits(l)), !.tag = p.tag,
                     !.sc = p.sc, !.sce = p.sce, !.scl = p.scl, !.scn = p.scn, !.pt = p.pt, !.mb = p.mb,
                     !.nb = IF IsCkks THEN Max2(p.nb, NoiseFresh(p.scl)) + 1 ELSE NoiseFresh(0)])
 
@@ -184,7 +185,7 @@ DecryptRes(c) ==
   IF ~IsCt(c) THEN RAny("not a ciphertext")
   ELSE IF BadCt(c) THEN RRefuse("invalid or seeded ciphertext")
   ELSE IF c.ntt # DefaultNtt THEN RRefuse("representation not accepted by decrypt")
-  ELSE ROk([Empty EXCEPT !.kind = "pt", !.lvl = IF IsCkks THEN c.lvl ELSE 0, !.ntt = IsCkks,
+  ELSE ROk([Empty EXCEPT !.kind = "pt", !.lvl = IF IsCkks THEN c.lvl ELSE 0, !.ntt = IsCkks, !.tag = c.tag,
                  !.sc = c.sc, !.sce = c.sce, !.scl = c.scl, !.scn = c.scn, !.pt = c.pt, !.mb = c.mb, !.nb = c.nb,
                  !.exact = c.exact /\ ExactOk(c.nb, c.lvl)])
 
@@ -204,6 +205,7 @@ AddSubRes(a, b, sub) ==
   ELSE IF BadCt(a) \/ BadCt(b) THEN RRefuse("invalid or seeded ciphertext")
   ELSE IF a.lvl # b.lvl THEN RRefuse("different levels")
   ELSE IF a.ntt # b.ntt THEN RRefuse("different representations")
+  ELSE IF IsCkks /\ (a.scl < 1 \/ b.scl < 1) /\ a.sc # b.sc THEN RAny("scales below 2 are outside the property's range")
   ELSE IF ScalesDisagree(a, b) THEN RRefuse("scales disagree")
   ELSE IF ~ScalesSame(a, b) THEN RAny("scales equal as reals but produced differently")
   ELSE LET sz == Max2(a.size, b.size)
@@ -268,6 +270,7 @@ AddSubPlainRes(a, p, sub) ==
   ELSE IF IsBfv /\ a.ntt THEN RRefuse("representation not accepted by add_plain")
   ELSE IF (~IsBfv) /\ ~a.ntt THEN RRefuse("representation not accepted by add_plain")
   ELSE IF ~PlainCompat(a, p) THEN RAny("plaintext form/level outside the statement")
+  ELSE IF IsCkks /\ (a.scl < 1 \/ p.scl < 1) /\ a.sc # p.sc THEN RAny("scales below 2 are outside the property's range")
   ELSE IF IsCkks /\ a.scn # p.scn THEN RRefuse("scales disagree")
   ELSE IF IsCkks /\ a.sc # p.sc THEN RAny("scales equal as reals but produced differently")
   ELSE ROk([a EXCEPT !.pt = IF sub THEN VSub(a.pt, p.pt) ELSE VAdd(a.pt, p.pt),
@@ -428,16 +431,21 @@ ValSeq(h) == IF h.kind = "none" \/ h.pt = <<>> THEN <<>>
              ELSE IF IsCkks THEN CToSeq(h.pt) ELSE PToSeq(h.pt)
 Proj(h) == [kind |-> h.kind, size |-> h.size, lvl |-> h.lvl, ntt |-> h.ntt, cf |-> h.cf, cfany |-> h.cfany,
             seeded |-> h.seeded, valid |-> h.valid, why |-> h.why, sc |-> h.sc, val |-> ValSeq(h),
-            nb |-> h.nb, cmp |-> (h.exact /\ (h.kind = "ct" => ExactOk(h.nb, h.lvl)))]
+            nb |-> h.nb,
+            cmp |-> (h.exact /\ (h.kind = "ct" => ExactOk(h.nb, h.lvl))
+                             /\ (IsCkks /\ h.kind # "none" => h.mb + h.sce + 2 < QLow[h.lvl+1] /\ h.scl >= 1))]
 
 \* typestate of a handle (what decides the verdict of every action)
-TypeOf(h) == <<h.kind, h.size, h.lvl, h.ntt, h.cf, h.seeded, h.valid, h.why, h.sc>>
+TypeOf(h) == <<h.kind, h.size, h.lvl, h.ntt, h.cf, h.seeded, h.valid, h.why, h.sc, h.tag>>
 
 Init == /\ pool = [s \in CtSlots \cup PtSlots |-> Empty]
         /\ nsteps = 0
         /\ hist = <<>>
 
-Apply(act, res, d) ==
+\* CKKS: the magnitude bound of a result is read off the exact value the specification carries
+Norm(h) == IF IsCkks /\ h.kind # "none" /\ h.pt # <<>> THEN [h EXCEPT !.mb = VMag(h.pt)] ELSE h
+Apply(act, res0, d) ==
+  LET res == [res0 EXCEPT !.h = Norm(res0.h)] IN
   /\ nsteps < MaxSteps
   /\ nsteps' = nsteps + 1
   /\ hist' = Append(hist, [act |-> act, dst |-> d, v |-> res.v, out |-> Proj(res.h)])
